@@ -196,6 +196,12 @@ def run_stress(binary, a):
     return analyse(a, rc, so, se, to)
 
 
+def run_minute(binary):
+    a = {"mode": "minute"}
+    rc, so, se, to = child(binary, ["-mode", "minute"], timeout=150)
+    return analyse(a, rc, so, se, to)
+
+
 def analyse(a, rc, so, se, timed_out, need_result=True):
     """Events of one child run: list of (key, what, detail)."""
     ev = []
@@ -302,7 +308,13 @@ def run(ctx):
     cov = ctx.coverage
     quick = ctx.quick
     learn = os.environ.get("VERIF_C09_LEARN")
-    binary = vlib.go_build(ctx, "concdrv", race=True)
+    # the tag verifticker compiles only on a tree that carries hooks/packet_verif_ticker.patch (packet.VerifMinute)
+    fast_tick = True
+    try:
+        binary = vlib.go_build(ctx, "concdrv", race=True, tags="verif verifticker")
+    except vlib.InfraError:
+        fast_tick = False
+        binary = vlib.go_build(ctx, "concdrv", race=True)
     TMP[0] = ctx.scratch
     rc, so, se, to = child(binary, ["-mode", "gates"], timeout=60)
     try:
@@ -384,8 +396,17 @@ def run(ctx):
     # ---- (B) stress
     nruns = 64 if quick else 900
     runs = [stress_args(i, ctx.seed, quick) for i in range(nruns)]
+    # Close while the purge started by the session's own ticker is still running: a real minute unless the tree carries
+    # the ticker hook (then in both tiers); without the hook thorough tier only
+    do_minute = fast_tick or not quick
     with ThreadPoolExecutor(max_workers=8) as ex:
+        fm = ex.submit(run_minute, binary) if do_minute else None
         outs = list(ex.map(lambda a: run_stress(binary, a), runs))
+        if fm is not None:
+            outs.append(fm.result())
+    cov["minute_ticker_scenario"] = {"run": do_minute, "ticker_hook": fast_tick,
+                                     "result": (outs[-1]["result"] or {}).get("replay") if do_minute else
+                                     "skipped in the quick tier: the tree has no ticker hook (hooks/packet_verif_ticker.patch), the scenario takes 65 s"}
     frames = ops = notes = 0
     for o in outs:
         for key, what, detail in o["events"]:
@@ -471,6 +492,11 @@ def _keys_of_stress(ctx, o, want_c05):
 
 def reproduce(ctx, binary, key, e):
     """Re-run the configurations in which an unlisted event was seen; True if the same key shows again."""
+    if any(w.get("mode") == "minute" for w in e["where"]):
+        for _ in range(2):
+            if key in {k for k, _, _ in run_minute(binary)["events"]}:
+                return True
+        return False
     stress = [w for w in e["where"] if w.get("mode") != "replay"]
     for w in [w for w in e["where"] if w.get("mode") == "replay" and "schedule" in w][:3]:
         rep = run_replay(ctx, binary, [w["schedule"]], "confirm")
